@@ -12,9 +12,11 @@ from . import fcsgen, beadsgen
 BEAD_LAWS = [(1.0, 3.0, 0.0), (1.1, 2.0, 0.0), (0.95, 4.0, 0.0), (1.05, 2.5, 0.0)]
 
 
-def instrument(i, nfl=2):
+def instrument(i, nfl=2, blank_names=False):
     suf = ['-H', '-A', ''][i % 3]
     fl = ['FL%d%s' % (k + 1, suf) for k in range(nfl)]
+    if blank_names:               # channel names with a blank inside (e.g. "Pacific Blue-A")
+        fl = ['Pacific Blue%s' % suf] + ['FL %d%s' % (k + 1, suf) for k in range(1, nfl)]
     return dict(id='INST%d' % (i + 1), fsc='FSC' + suf, ssc='SSC' + suf, fl=fl, time='Time' if i % 2 == 0 else 'TIME')
 
 
@@ -43,7 +45,7 @@ def write_fcs(path, lay):
         f.write(buf)
 
 
-def write_workbook(path, instruments, beads_rows, sample_rows, mef_channels_cols=None, unit_channels_cols=None, extra_cols=True):
+def write_workbook(path, instruments, beads_rows, sample_rows, mef_channels_cols=None, unit_channels_cols=None, extra_cols=True, header_style='plain'):
     """rows are dicts; beads: id, inst, file, gate_fraction, cluster, mef {channel: str}, lot; samples: id, inst, beads, file,
     gate_fraction, units {channel: str}, strain"""
     wb = openpyxl.Workbook()
@@ -73,7 +75,9 @@ def write_workbook(path, instruments, beads_rows, sample_rows, mef_channels_cols
             for ch in r.get('units', {}):
                 if ch not in ucols:
                     ucols.append(ch)
-    ws.append(['ID', 'Instrument ID', 'Beads ID', 'File Path'] + ['%s Units' % ch for ch in ucols] + ['Gate Fraction'] +
+    # the documented header pattern allows any blanks between the channel name and the word Units, and around the whole header
+    uh = (lambda ch, k: '%s Units' % ch) if header_style == 'plain' else (lambda ch, k: ['%s  Units ', ' %s Units', '%s   Units'][k % 3] % ch)
+    ws.append(['ID', 'Instrument ID', 'Beads ID', 'File Path'] + [uh(ch, k) for k, ch in enumerate(ucols)] + ['Gate Fraction'] +
               (['Strain', 'Inducer (uM)'] if extra_cols else []))
     for k, r in enumerate(sample_rows):
         ws.append([r['id'], r['inst'], r.get('beads'), r['file']] + [r.get('units', {}).get(ch) for ch in ucols] + [r['gate_fraction']] +
